@@ -1363,12 +1363,62 @@ func poolRunSessScenario(t *testing.T, idx int, cfg poolSessCfg, rep *vreport, z
 			complete = false
 		}
 	}
+	// a message left half-read when its session is closed: the rest sits in the session's own
+	// receive buffer and Read still hands it out after Close - from memory that must not have been
+	// given back to the pool (the sanitizer poisons every recycled buffer)
+	tails := make([][]byte, len(servers))
+	heads := make([][]byte, len(servers))
+	queued := make([]int, len(servers))
+	for i, p := range servers {
+		ci := byRemote[p.s.RemoteAddr().String()]
+		tails[i] = poolContent(rng, 1200)
+		clients[ci].s.SetWriteDeadline(time.Now().Add(5 * time.Second))
+		clients[ci].s.Write(tails[i])
+	}
+	for i, p := range servers {
+		sess := p.s
+		if !poolWaitFor(3*time.Second, func() bool {
+			sess.mu.Lock()
+			defer sess.mu.Unlock()
+			queued[i] = sess.kcp.PeekSize()
+			return queued[i] > 16
+		}) {
+			queued[i] = 0
+			rep.Distribution["session_tail_not_arrived"]++
+			continue
+		}
+		sess.SetReadDeadline(time.Now().Add(time.Second))
+		h := make([]byte, 16)
+		n, _ := sess.Read(h)
+		heads[i] = h[:n]
+	}
 	// close everything, wait for the goroutines, then account for what is still outstanding
 	for _, p := range clients {
 		p.s.Close()
 	}
 	for _, p := range servers {
 		p.s.Close()
+	}
+	for i, p := range servers {
+		if queued[i] == 0 {
+			continue
+		}
+		got := append([]byte(nil), heads[i]...)
+		buf := make([]byte, 4096)
+		for k := 0; k < 64; k++ {
+			n, err := p.s.Read(buf)
+			got = append(got, buf[:n]...)
+			if err != nil {
+				break
+			}
+		}
+		rep.Monitors["session_read_after_close_oracle"]++
+		poolCheckStream(z, fmt.Sprintf("%s server%d, message half-read before Close and drained after it", cfg.Name, i), got, tails[i])
+		if len(got) < queued[i] {
+			z.mu.Lock()
+			z.violate("pool-residue-lost", fmt.Sprintf("%s server%d: %d bytes were readable before Close, Reads before and after Close returned %d", cfg.Name, i, queued[i], len(got)))
+			z.mu.Unlock()
+		}
 	}
 	l.Close()
 	srvConn.Close()
